@@ -6,11 +6,17 @@ RU:  L1 every path applies to the stored factor U the operation that mirrors eac
 Chain: L4 every column insertion / removal updates pivotToColumnIndex_ on the same path; the stored barcode gets
      exactly one event per inserted cell
 """
+import re
+
 from gsa import facts, ir, kinds, paths
 from gsa.facts import Unit, rel, AnalysisBroken
 from gsa.report import Check
 
+import json
+import os
+
 PM = 'src/Persistence_matrix/include/gudhi/Persistence_matrix/'
+ROW_TABLE = json.load(open(os.path.join(os.path.dirname(__file__), '..', 'tables', 'c05.json')))
 UNITS = [Unit('mx_pat', 'matrix_pat.cpp', [PM], no_inst=True)]
 RKIND = {'add_to': 'add', 'multiply_target_and_add_to': 'mta', 'multiply_source_and_add_to': 'msa',
          'swap_columns': 'swapc', 'swap_rows': 'swapr', 'insert_boundary': 'insert', 'remove_last': 'remove'}
@@ -281,6 +287,62 @@ def run_chain_add(chk, F):
            '%s:%d' % (rel(f['file']), f['line']), bad is None, bad or '', key='E2|Chain_matrix::_add_to|pivot-swap')
 
 
+ROW_KIND_FILES = ('Boundary_matrix.h', 'base_swap.h', 'matrix_row_access.h', 'RU_matrix.h', 'ru_vine_swap.h')
+ROW_KIND_CONTAINERS = {'indexToRow_': ('ID', 'ID'), 'rowToIndex_': ('ID', 'ID'), 'matrix_': ('POS', None),
+                       'rows_': ('ID', None), 'idToPosition_': ('ID', 'POS'), 'map_': ('POS', 'ID'),
+                       'pivotToColumnIndex_': ('ID', 'POS')}
+
+
+def run_row_kinds(chk, F, only=None, floor=150):
+    """E11-row-kinds: in the boundary and RU flavours the rows of R are cell identifiers and the columns are positions
+    (the rows and columns of U are positions); a cell may carry an identifier different from its position. The
+    dictionaries (pivot -> column, row permutation of the lazy swaps, identifier <-> position) are addressed with their
+    key kind, arguments have the kind of their parameter (`rowIndex`, `cellIndex`, `pivot` parameters are rows even
+    where they are declared Index), calls on mirrorMatrixU_ take positions for rows, returned values have the declared
+    kind. Deliberate identifications are listed one by one in tables/c05.json. `only`: report the functions of these
+    files (signatures are always read from the whole family)."""
+    fns = [f for f in F.functions if f['inst'] in (0, 2) and f['file'].split('/')[-1] in ROW_KIND_FILES and
+           f.get('body') is not None]
+    if len(fns) < 8:
+        raise AnalysisBroken('C05: boundary / RU family not found (%d functions)' % len(fns))
+    kt = {'Index': 'POS', 'Pos_index': 'POS', 'ID_index': 'ID'}
+    kc = kinds.KindChecker(
+        fns, ROW_KIND_CONTAINERS, kinds_table=kt,
+        name_kinds=[(r'rowIndex\d*', 'ID'), (r'cellIndex|cellID|faceID|pivot', 'ID')],
+        receiver_maps={'mirrorMatrixU_': {'ID': 'POS'}}, check_returns=True,
+        extra_sigs={('get_pivot', 1): (['POS'], 'ID'), ('get_pivot', 0): ([], 'ID')})
+    # functions whose declared return typedef does not carry the kind the documentation gives (a pivot is a row)
+    ret_rows = ('get_pivot', '_get_real_row_index', 'get_column_with_pivot')
+    ok = ROW_TABLE['row_kind_conflations_ok']
+    total = 0
+    for f in fns:
+        if only and f['file'].split('/')[-1] not in only:
+            continue
+        before, c0 = len(kc.reports), kc.checked
+        kc.run(f)
+        total += kc.checked - c0
+        owner = f.get('clsname') or '-'
+        reps = list(zip(kc.reports[before:], kc.report_sigs[before:]))
+        if f['name'] in ret_rows or (owner == 'Boundary_matrix' and f['name'] == 'remove_last'):
+            reps = [r for r in reps if not r[1].startswith('ret:')]
+        if kc.checked == c0 and not reps:
+            continue
+        real, seen = [], {}
+        for (nd, m), sig in reps:
+            k = '%s::%s|%s' % (owner, f['name'], sig)
+            seen[k] = seen.get(k, 0) + 1
+            if k in ok and seen[k] <= ok[k]['n']:
+                chk.count('documented row/position identifications')
+            else:
+                real.append((nd, m, sig))
+        chk.ob('E11-row-kinds', '%s::%s keeps rows (cell identifiers) and positions apart (%d meetings)' % (
+            owner, f['name'], kc.checked - c0), '%s:%d' % (rel(f['file']), f['line']), not real,
+            '; '.join('line %s: %s' % (nd.get('l'), m) for nd, m, _ in real[:3]),
+            key='E11r|%s::%s|%s' % (owner, f['name'], real[0][2] if real else ''))
+    chk.count('row/position meetings checked', total)
+    chk.expect_count('E11-row-kinds', 'row/position meetings', total, floor)
+
+
 def run_pairing_kinds(chk, F):
     """The barcode bookkeeping of the boundary and RU flavours maps cell identifiers to positions (idToPosition_) and
     positions back to identifiers (the position mapper's map_): identifiers and positions never meet (index-kind
@@ -328,6 +390,9 @@ def run(tier, replay=None):
     run_transposed_u_undo(chk, F)
     run_overlay_counter(chk, F)
     run_position_dictionary(chk, F)
+    run_counter_guards(chk, F)
+    run_row_kinds(chk, F)
+    run_identifier_enumeration(chk, F)
     chk.assumptions += ['clang 14 parser; template patterns', 'U is stored transposed for Z2: a column addition on R '
                         'is mirrored by add_to with exchanged indices or by one pushed entry']
     return chk
@@ -749,3 +814,108 @@ def run_position_dictionary(chk, F):
            (bad.tags().count('DROP'), '; '.join(('' if pol else '!') + ir.show(c)[:50] for c, pol, _ in bad.conds
                                                 if not isinstance(c, tuple))[:200]),
            key='E2n|Chain_matrix::_remove_last|position-dictionary')
+
+
+# ------------------------------------------------------------------ E2g counters of the indexing layers never go below 0
+
+def run_counter_guards(chk, F):
+    """E2g-counter-guard: remove_last on an empty matrix is a no-op in every flavour (each core matrix starts with
+    `if (<its counter> == 0) return;`). The indexing overlays keep their own unsigned counters (next index, next
+    position): every path of a remove_last that decrements a counter member has first established that this very
+    counter is not zero - a guard on something else (a dictionary that keeps its null slots) does not protect it."""
+    fams = ('Base_matrix', 'Boundary_matrix', 'RU_matrix', 'Chain_matrix', 'Id_to_index_overlay',
+            'Position_to_index_overlay')
+    n = 0
+    for f in F.functions:
+        if f.get('clsname') not in fams or f['name'] != 'remove_last' or f.get('inst') not in (0, 2) or \
+                f.get('body') is None:
+            continue
+
+        def cl(x):
+            if x.get('k') == 'UnaryOperator' and x.get('op') == '--':
+                t = ir.skipcasts(x['c'][0])
+                if t is not None and t.get('k') in ir.MEMBER_KINDS and (t.get('n') or '').startswith('next'):
+                    return ['DEC:' + t['n']]
+            return []
+        if not ir.contains(f['body'], lambda y: bool(cl(y))):
+            continue
+        ps = paths.enumerate_paths(f, cl, loop_mode='01', keep_conds=True, cap=20000)
+        bad = None
+        for p in ps:
+            if p.end == 'throw':
+                continue
+            known_pos = set()
+            for tag, node in p.events:
+                if tag == '?':
+                    c, pol, _cx = node
+                    if isinstance(c, tuple):
+                        continue
+                    t = ir.show(c).replace(' ', '').replace('(', '').replace(')', '')
+                    for part in t.split('||') if not pol else t.split('&&'):
+                        m = re.match(r'^(next\w+)==0$', part)
+                        if m and not pol:
+                            known_pos.add(m.group(1))
+                        m = re.match(r'^(next\w+)(>0|!=0)$', part)
+                        if m and pol:
+                            known_pos.add(m.group(1))
+                elif tag.startswith('DEC:'):
+                    cnt = tag[4:]
+                    if cnt not in known_pos and bad is None:
+                        # a second counter decremented together with a guarded one of the same path is fine when both
+                        # count the same insertions (nextIndex_ after nextPosition_)
+                        if not known_pos:
+                            bad = (cnt, node)
+        n += 1
+        chk.ob('E2g-counter-guard', '%s::remove_last decrements its counters only when they are not zero'
+               % f['clsname'], '%s:%d' % (rel(f['file']), f['line']), bad is None,
+               '' if bad is None else '`--%s` (line %s) on a path that never tested %s == 0: on an emptied matrix the '
+               'unsigned counter wraps, the next insertion indexes / resizes with 2^32 - 1' %
+               (bad[0], bad[1].get('l'), bad[0]), key='E2g|%s::remove_last|counter-guard' % f['clsname'])
+    chk.expect_count('E2g-counter-guard', 'remove_last functions with counters', n, 4)
+
+
+# ------------------------------------------------------------------ E11 identifiers are labels, not a dense range
+
+def run_identifier_enumeration(chk, F):
+    """E11-identifier-range: cell identifiers only have to increase along the filtration, they can have gaps. With
+    the map container the identifier dictionary has exactly the used identifiers as keys, so code that counts
+    through identifiers (`ID_index i = 0; ... ++i`) and looks each one up (`_id_to_index(i)`, `.at(i)`) is only valid
+    in the arm of the vector dictionary (one slot per identifier below the largest): every such enumeration sits
+    under `if constexpr (!has_map_column_container)` (or in the else-arm of the positive test)."""
+    fns = [f for f in F.functions if f.get('clsname') == 'Id_to_index_overlay' and f.get('inst') in (0, 2) and
+           f.get('body') is not None]
+    n = 0
+    for f in fns:
+        par = ir.parents(f['body'])
+        idvars = {x['n'] for x in ir.walk(f['body']) if x.get('k') == 'VarDecl' and
+                  (x.get('t') or '').split('::')[-1].strip() == 'ID_index'}
+        if not idvars:
+            continue
+        stepped = set()
+        for x in ir.walk(f['body']):
+            if x.get('k') == 'UnaryOperator' and x.get('op') in ('++', '--'):
+                t = ir.skipcasts(x['c'][0])
+                if t is not None and t.get('k') == 'DeclRefExpr' and t.get('n') in idvars:
+                    stepped.add(t['n'])
+        for v in sorted(stepped):
+            looks = [x for x in ir.walk(f['body']) if ir.is_call(x) and ir.call_name(x) in ('_id_to_index', 'at') and
+                     any(ir.show(a) == v for a in ir.call_args(x))]
+            for x in looks:
+                n += 1
+                ok = False
+                cur = x
+                while id(cur) in par:
+                    up = par[id(cur)]
+                    if up.get('k') == 'IfStmt' and up.get('constexpr') and \
+                            'has_map_column_container' in ir.show(up.get('cond')):
+                        neg = ir.show(up['cond']).replace(' ', '').lstrip('(').startswith('!')
+                        in_then = ir.contains(up.get('then'), lambda y: y is x)
+                        if (neg and in_then) or (not neg and not in_then):
+                            ok = True
+                    cur = up
+                chk.ob('E11-identifier-range', 'Id_to_index_overlay::%s: identifiers are enumerated by counting only '
+                       'for the vector dictionary' % f['name'], '%s:%s' % (rel(f['file']), x.get('l')), ok,
+                       '' if ok else '`%s` looks up the counter `%s`: with the map container an identifier that was '
+                       'never used (a gap) is not a key - unordered_map::at throws, pivots do not map back to their '
+                       'columns' % (ir.show(x), v), key='E11|Id_to_index_overlay::%s|identifier-range' % f['name'])
+    chk.expect_count('E11-identifier-range', 'lookups of enumerated identifiers', n, 1)
